@@ -459,6 +459,20 @@ fn size_of(ops: &[Op]) -> usize {
 /// (`lazy_env`: only then; otherwise events may also complete early, unasked).
 /// The schedule is built by running the real generator, and then replayed from JSON.
 fn adaptive_sched(rng: &mut Rng, mode: Mode, ops: &[Op], ret: u64, early: bool, extra_polls: u64) -> Vec<Step> {
+    // the schedule is found by running the real generator: if that run itself panics (a broken generator), fall back
+    // to a fixed executor-like schedule so that the case is still produced and the panic is recorded by run_input
+    let mut fork = rng.fork();
+    match std::panic::catch_unwind(std::panic::AssertUnwindSafe(|| adaptive_sched_live(&mut fork, mode, ops, ret, early, extra_polls))) {
+        Ok(s) => s,
+        Err(_) => {
+            let mut s = vec![Step::Poll, Step::Poll];
+            for k in events_of(ops) { s.push(Step::Complete(k)); s.push(Step::Poll); s.push(Step::Poll); }
+            for _ in 0..(2 * size_of(ops) + 4) { s.push(Step::Poll); }
+            s
+        }
+    }
+}
+fn adaptive_sched_live(rng: &mut Rng, mode: Mode, ops: &[Op], ret: u64, early: bool, extra_polls: u64) -> Vec<Step> {
     let mut live = Live::new(mode, ops, ret);
     let mut sched = vec![];
     let evs = events_of(ops);
@@ -471,7 +485,7 @@ fn adaptive_sched(rng: &mut Rng, mode: Mode, ops: &[Op], ret: u64, early: bool, 
             live.step(s);
             sched.push(s);
         } else if want_poll || live.count() != live.last {
-            let o = live.step(Step::Poll).unwrap();
+            let o = match live.step(Step::Poll) { Some(o) => o, None => break };
             sched.push(Step::Poll);
             want_poll = o.wd || !matches!(o.res, Res::Pending);
             blocked = o.blocked;
